@@ -1,5 +1,5 @@
 // imp_fieldloops.go — sub-pass "FieldLoops" of the imperative mode: the data-dependent LOOPS of the 23 field packages
-// (`BatchInvert` of element.go), statement by statement, over an ABSTRACT element type F and an ABSTRACT bit-set type B
+// (`BatchInvert` of element.go; and the wrapper `(*Element).Legendre`, see flLegendre below), statement by statement, over an ABSTRACT element type F and an ABSTRACT bit-set type B
 // → Gen/Imp/FieldLoops.lean (C01; theorems in Props/C01_loops_gen.lean).
 //
 // ONE Lean file for the 23 packages: every package is translated, and the pass is FATAL unless the 23 translations are the same text
@@ -42,7 +42,7 @@ const flArgs = " zero one mul inv isZero bsNew bsSet bsTest"
 var flReserved = map[string]bool{"zero": true, "one": true, "mul": true, "inv": true, "isZero": true, "bsNew": true, "bsSet": true, "bsTest": true,
 	"F": true, "B": true, "fuel_": true, "len": true, "idxD": true, "setAt": true}
 
-var flFuncs = []string{"BatchInvert"}
+var flFuncs = []string{"BatchInvert"} // + the method Legendre (flLegendre)
 
 const flOneText = "func One() Element { var one Element one.SetOne() return one }"
 
@@ -549,7 +549,95 @@ func flTranslate(dir string) string {
 		}
 		fmt.Fprintf(&out, "/-- element.go: `func %s` -/\ndef %s%s %s : List F :=\n%s\n", name, name, flParams, strings.Join(binders, " "), body)
 	}
+	out.WriteString(flLegendre(fset, file, dir))
 	return out.String()
+}
+
+// `(*Element).Legendre`: parameters `zero`, `isZero`, `isOne` (`x.IsOne()`), `legendreExp` = the exponentiation to (q-1)/2, which the
+// packages write either `l.expByLegendreExp(*z)` (addition chain: C01_chains pins its exponent per package) or
+// `l.Exp(*z, _bLegendreExponentElement)` (C01_expgen is the theorem about Exp; the value of the package variable is ASSUMED);
+// both spellings give the same Lean text. Statements accepted: `var l Element`, that call on a declared local with argument `*z`
+// (z the receiver, never written), `if l.IsZero() / l.IsOne() { return <int literal> }`, a final `return <int literal>`.
+const flLegParams = " {F : Type} (zero : F) (isZero isOne : F → Bool) (legendreExp : F → F)"
+
+func flLegendre(fset *token.FileSet, file *ast.File, dir string) string {
+	var fd *ast.FuncDecl
+	for _, d := range file.Decls {
+		if x, ok := d.(*ast.FuncDecl); ok && x.Name.Name == "Legendre" && x.Recv != nil && x.Body != nil {
+			fd = x
+		}
+	}
+	bad := func(n ast.Node, msg string) {
+		pos := ""
+		if n != nil {
+			pos = fset.Position(n.Pos()).String() + ": " + flSrc(fset, n) + ": "
+		}
+		die("imp/fieldloops %s: Legendre: %s%s", dir, pos, msg)
+	}
+	if fd == nil {
+		bad(nil, "method not found")
+	}
+	if len(fd.Recv.List) != 1 || len(fd.Recv.List[0].Names) != 1 || flSrc(fset, fd.Recv.List[0].Type) != "*Element" || len(fd.Type.Params.List) != 0 ||
+		fd.Type.Results == nil || len(fd.Type.Results.List) != 1 || flSrc(fset, fd.Type.Results.List[0].Type) != "int" {
+		bad(fd.Type, "signature is not func (z *Element) Legendre() int")
+	}
+	recv := fd.Recv.List[0].Names[0].Name
+	locals := map[string]bool{}
+	intLit := func(e ast.Expr) string {
+		t := flSrc(fset, e)
+		if t == "0" || t == "1" || t == "-1" {
+			return t
+		}
+		bad(e, "result is not one of the literals 0, 1, -1")
+		return ""
+	}
+	var seq func(stmts []ast.Stmt, ind string) string
+	seq = func(stmts []ast.Stmt, ind string) string {
+		if len(stmts) == 0 {
+			bad(fd, "a block does not end in a return")
+		}
+		s, rest := stmts[0], stmts[1:]
+		switch v := s.(type) {
+		case *ast.DeclStmt:
+			if t := flSrc(fset, v); strings.HasPrefix(t, "var ") && strings.HasSuffix(t, " Element") && len(strings.Fields(t)) == 3 {
+				n := strings.Fields(t)[1]
+				if locals[n] || n == recv || flReserved[n] || n == "isOne" || n == "legendreExp" {
+					bad(s, "variable declared twice or reserved")
+				}
+				locals[n] = true
+				return ind + "let " + n + " := zero\n" + seq(rest, ind)
+			}
+		case *ast.ExprStmt:
+			t := flSrc(fset, v.X)
+			for l := range locals {
+				if t == l+".expByLegendreExp(*"+recv+")" || t == l+".Exp(*"+recv+", _bLegendreExponentElement)" {
+					return ind + "let " + l + " := legendreExp " + recv + "\n" + seq(rest, ind)
+				}
+			}
+		case *ast.IfStmt:
+			if v.Init == nil && v.Else == nil && len(v.Body.List) == 1 {
+				if r, ok := v.Body.List[0].(*ast.ReturnStmt); ok && len(r.Results) == 1 {
+					c := flSrc(fset, v.Cond)
+					for l := range locals {
+						if c == l+".IsZero()" {
+							return ind + "if isZero " + l + " then\n" + ind + "  " + intLit(r.Results[0]) + "\n" + ind + "else\n" + seq(rest, ind)
+						}
+						if c == l+".IsOne()" {
+							return ind + "if isOne " + l + " then\n" + ind + "  " + intLit(r.Results[0]) + "\n" + ind + "else\n" + seq(rest, ind)
+						}
+					}
+				}
+			}
+		case *ast.ReturnStmt:
+			if len(v.Results) == 1 && len(rest) == 0 {
+				return ind + intLit(v.Results[0]) + "\n"
+			}
+		}
+		bad(s, "statement outside the subset")
+		return ""
+	}
+	body := seq(fd.Body.List, "  ")
+	return "/-- element.go: `func (" + recv + " *Element) Legendre` -/\ndef Legendre" + flLegParams + " (" + recv + " : F) : Int :=\n" + body + "\n"
 }
 
 func runFieldLoops() {
@@ -566,7 +654,7 @@ func runFieldLoops() {
 	}
 	var b strings.Builder
 	b.WriteString("/- GENERATED by tools/goslp (imp_fieldloops.go) on every run. DO NOT EDIT.\n")
-	fmt.Fprintf(&b, "   Statement-by-statement translation of %s (element.go) of\n   /repo/{%s}; the translator checked that the %d packages give this same text.\n", strings.Join(flFuncs, " / "), strings.Join(fieldDirs, ", "), len(fieldDirs))
+	fmt.Fprintf(&b, "   Statement-by-statement translation of %s (element.go) of\n   /repo/{%s}; the translator checked that the %d packages give this same text.\n", strings.Join(flFuncs, " / ")+" / (*Element).Legendre", strings.Join(fieldDirs, ", "), len(fieldDirs))
 	b.WriteString("   Vocabulary: Model/GoImp.lean, Model/GoImpSlice.lean; parameters and checked side conditions: header of tools/goslp/imp_fieldloops.go. -/\n")
 	b.WriteString("import GnarkVerif.Model.GoImpSlice\n\nset_option linter.unusedVariables false\n\nnamespace GV.Gen.Imp.FieldLoops\nopen GV.GoImp\n\n")
 	b.WriteString(ref)
